@@ -407,7 +407,7 @@ impl Scenario for C11 {
     }
     fn meta() -> Meta {
         Meta {
-            rule: "FAULT-FREE BASELINE: no fault or schedule space is searched for this property. Two nodes share (secret, random vector). Each run hides 6 AVPs (the run's forced kind twice, so all 39 non-hidden kinds recur every 39 runs) with secret length over {0,1,5,8,15,16,17,33,55,56,64, 119-128, 239-257, PRNG 0-300, 300-4096}, length padding chosen to hit block counts 1,2,3,4,63 and residues 0,1,15 of (2+|payload|+|lp|) mod 16 (no / minimal / maximal alignment padding) or PRNG, and reveals either directly or after AVP::write -> delivery -> try_read_greedy through a PRNG reader; plus one identity check (hide of a hidden AVP, reveal of a plain AVP). Oracle: reveal(hide(a,s,rv,lp,ap),s,rv) = Ok(a). distinct_nontrivial = distinct (AVP, secret, rv, paddings) tuples.",
+            rule: "NO TRANSPORT FAULT applies to this property (its quantifier has none); what is injected is the execution environment (one case in ten runs right after a refused operation on the same thread, or inside a destructor while the thread unwinds: faults_fired env-*) and the behaviour of the Reader/Writer seams. Two nodes share (secret, random vector). Each run hides 6 AVPs (the run's forced kind twice, so all 39 non-hidden kinds recur every 39 runs) with secret length over {0,1,5,8,15,16,17,33,55,56,64, 119-128, 239-257, PRNG 0-300, 300-4096}, length padding chosen to hit block counts 1,2,3,4,63 and residues 0,1,15 of (2+|payload|+|lp|) mod 16 (no / minimal / maximal alignment padding) or PRNG, and reveals either directly or after AVP::write -> delivery -> try_read_greedy through a PRNG reader; plus one identity check (hide of a hidden AVP, reveal of a plain AVP). Oracle: reveal(hide(a,s,rv,lp,ap),s,rv) = Ok(a). distinct_nontrivial = distinct (AVP, secret, rv, paddings) tuples.",
             assumptions: vec!["self-relative (no reference model in the verdict); block-count and residue probes are reported"],
             real: vec!["AVP::hide", "AVP::reveal", "AVP::write", "AVP::try_read_greedy", "md5 crate as linked by rl2tp"],
             stub: vec!["secret store shared by the two nodes", "reader back-ends"],
@@ -825,7 +825,7 @@ impl Scenario for C12 {
     }
     fn meta() -> Meta {
         Meta {
-            rule: "FAULT-FREE BASELINE: no fault or schedule space is searched for this property. Same workload as C11 (all 39 kinds, secret lengths 0-64, block counts 1,2,3,4,63, residues 0,1,15). Interoperability with the foreign peer, which computes RFC 2661 s4.3 with its own MD5: (a) real hides -> the value must equal the reference construction octet for octet, |value| = 16*ceil((2+|payload|+|lp|)/16), attribute type in clear, wire form carries H, the output is deterministic, and reveal equals the reference reveal; (b) the reference peer hides -> real must reveal to the original. The original-length subfield may follow either convention (|value| or 6+|value|) but the same one throughout. distinct_nontrivial = distinct (AVP, secret, rv, paddings) tuples.",
+            rule: "NO TRANSPORT FAULT applies to this property (its quantifier has none); what is injected is the execution environment (one case in ten runs right after a refused operation on the same thread, or inside a destructor while the thread unwinds: faults_fired env-*) and the behaviour of the Reader/Writer seams. Same workload as C11 (all 39 kinds, secret lengths 0-64, block counts 1,2,3,4,63, residues 0,1,15). Interoperability with the foreign peer, which computes RFC 2661 s4.3 with its own MD5: (a) real hides -> the value must equal the reference construction octet for octet, |value| = 16*ceil((2+|payload|+|lp|)/16), attribute type in clear, wire form carries H, the output is deterministic, and reveal equals the reference reveal; (b) the reference peer hides -> real must reveal to the original. The original-length subfield may follow either convention (|value| or 6+|value|) but the same one throughout. distinct_nontrivial = distinct (AVP, secret, rv, paddings) tuples.",
             assumptions: vec![
                 "trusted base: the model's MD5 (RFC 1321 appendix A.5 vectors checked at every worker start; compared with the md5 crate on 10^4 PRNG inputs in selftest) and its s4.3 construction",
             ],
@@ -889,7 +889,7 @@ fn exec_c13(c: &Case13, obs: &mut Obs) -> Result<(), Failure> {
     let rr = match c.teardown {
         None => real_reveal(h, &c.secret, c.rv),
         Some(order) => {
-            obs.count("env:reveal-at-thread-exit");
+            obs.count("fault:env-reveal-at-thread-exit");
             let (secret, rv) = (c.secret.clone(), c.rv);
             // ordinary use during the thread's life: one hide and one reveal
             let warm = || {
